@@ -15,10 +15,12 @@ from ..core import CaseTimeout, case_deadline, rng_for, short_tb
 
 PROP = "C04"
 LEVEL = "exploration"
-RULE = ("two kinds of cases: (a) one-step: (forest shape <= bound, labeling in {unique, clone pair, equal siblings with "
+RULE = ("three kinds of cases: (a) one-step: (forest shape <= bound, labeling in {unique, clone pair, equal siblings with "
         "explicit ids}, tree class, one op with one argument tuple) - every op x every documented-valid argument combination "
-        "(and the documented-invalid ones, which must be refused) from every such state; (b) random histories of valid "
-        "ops (<= 40 steps) on larger trees, 7 data flavours; non-trivial = one-step on a state with >= 3 nodes, or a "
+        "(and the documented-invalid ones, which must be refused) from every such state; (b) two-step: (state with one or two clone "
+        "pairs, first op that changes which nodes share an id, second op whose documented effect depends on id sharing) - all "
+        "pairs up to the bound; (c) random histories of valid "
+        "ops (<= 40 steps) on larger trees, 7 data flavours; non-trivial = one-/two-step on a state with >= 3 nodes, or a "
         "history with >= 3 steps that reached >= 4 nodes; distinct by case description")
 ASSUMPTIONS = ["reference model written from docstrings/user guide (DESIGN.md appendix A)",
                "order among equal sort keys, meta of copied nodes, and integer positions outside 0..len-1 are unspecified"]
